@@ -16,6 +16,7 @@ from xdsl.pattern_rewriter import (
     op_type_rewrite_pattern,
 )
 from xdsl.rewriter import InsertPoint
+from xdsl.traits import is_side_effect_free
 from xdsl.utils.hints import isa
 
 
@@ -90,12 +91,22 @@ class ChangeForStep(RewritePattern):
 class MergeForLoops(RewritePattern):
     """
     Merges two nested for loops into one.
+    Currently supported are nested for loops:
+        - both without iter_args
+        - step, ub and lb of both loops defined as constants,
+        - lb == 0 and step == 1 for both loops and
+        - all other operations in the body of the outer loop are side-effect free,
+          as they are executed once per iteration of the merged loop
     """
 
     @op_type_rewrite_pattern
     def match_and_rewrite(self, op: ForOp, rewriter: PatternRewriter):
         # searching for nested for loops:
         if not isinstance(parent := op.parent_op(), ForOp):
+            return
+
+        # iter args is not supported
+        if len(op.iter_args) != 0 or len(parent.iter_args) != 0:
             return
 
         # lb, ub and step must be index constants
@@ -110,6 +121,11 @@ class MergeForLoops(RewritePattern):
 
         # lb must be 0 and step must be 1:
         if lb != 0 or lb_parent != 0 or step != 1 or step_parent != 1:
+            return
+
+        # after merging, every other operation in the parent body runs in each of the
+        # ub * ub_parent iterations instead of ub_parent times: they must be side-effect free
+        if any(other is not op and not is_side_effect_free(other) for other in parent.body.block.ops):
             return
 
         # the new ub of the parent op is ub * ub_parent
